@@ -784,6 +784,9 @@ fn all_schedules(mut run_one: impl FnMut(&[usize]) -> (ScheduleRun, Vec<(String,
             all.push(("deadlock".into(), "no actor is enabled".into()));
         }
         if let Some(s) = &run.stuck {
+            if std::env::var("MC_DEBUG").is_ok() {
+                eprintln!("DEBUG stuck: {s} trace {:?}", run.trace);
+            }
             all.push(("MACHINERY:scheduler-stuck".into(), s.clone()));
         }
         if !all.is_empty() {
@@ -1053,7 +1056,109 @@ pub fn check_c19(tier: &str) -> i32 {
     rep.finish()
 }
 
+/// C17 under contention: an RTU broadcast write to three units while an application thread holds
+/// the handler mutex of one of them (every unit must still receive the write exactly once, and the
+/// broadcast is never answered). The server session is hand-polled on its own thread; the
+/// cooperative scheduler decides at every handler-mutex acquisition who goes first.
+fn scenario_broadcast_vs_handler_lock(held_unit: usize, prefix: &[usize]) -> (ScheduleRun, Vec<(String, String)>) {
+    use crate::hserver::{AppSpec, ServerCfg, ServerHarness};
+    use crate::refmodel::server::Call;
+    let cfg = ServerCfg { rtu: true, units: vec![(1, AppSpec::dense()), (2, AppSpec::dense()), (9, AppSpec::dense())], auth: None, decode: (0, 0, 0) };
+    let s = CoopSched::new();
+    {
+        let mut g = s.inner.lock().unwrap();
+        g.actors.insert(ACTOR_SERVER, AState::Running);
+    }
+    // write single register 7 := 0x2A2A to unit 0 (broadcast)
+    let frame = crate::refmodel::pdu::rtu_frame(0, &[6, 0, 7, 0x2A, 0x2A]);
+    let out: Arc<Mutex<Option<(Vec<u8>, Vec<Call>)>>> = Arc::new(Mutex::new(None));
+    let handler_slot: Arc<Mutex<Option<Arc<Mutex<Box<crate::hserver::RecHandler>>>>>> = Arc::new(Mutex::new(None));
+    rodbus::verif::sched::install(Some(s.clone()));
+    let run = std::thread::scope(|scope| {
+        let s0 = s.clone();
+        let out0 = out.clone();
+        let slot0 = handler_slot.clone();
+        let cfg0 = cfg.clone();
+        let frame0 = frame.clone();
+        scope.spawn(move || {
+            crate::sim::enter_thread_runtime();
+            s0.register_current(ACTOR_SERVER);
+            let mut h = ServerHarness::new(&cfg0);
+            h.settle();
+            *slot0.lock().unwrap() = Some(h.handlers[held_unit].1.clone());
+            // the frame arrives when the scheduler says so
+            user_point(100);
+            let obs = h.deliver_and_observe(&frame0);
+            *out0.lock().unwrap() = Some((obs.written.concat(), obs.calls));
+            s0.mark_done(ACTOR_SERVER);
+        });
+        let s1 = s.clone();
+        let slot1 = handler_slot.clone();
+        scope.spawn(move || {
+            s1.register_current(1);
+            // wait for the harness to exist
+            let handler = loop {
+                if let Some(h) = slot1.lock().unwrap().clone() {
+                    break h;
+                }
+                std::thread::sleep(Duration::from_micros(200));
+            };
+            {
+                // the application updates its own state under the handler lock
+                let guard = rodbus::server::LockExt::lock(&handler).unwrap();
+                user_point(0);
+                let _ = guard.unit;
+            }
+            s1.mark_done(1);
+        });
+        drive(&s, 2, prefix)
+    });
+    rodbus::verif::sched::install(None);
+    let mut problems = vec![];
+    match out.lock().unwrap().take() {
+        Some((written, calls)) => {
+            if !written.is_empty() {
+                problems.push(("broadcast-answered".to_string(), format!("the broadcast was answered with {}", hex(&written))));
+            }
+            for unit in [1u8, 2, 9] {
+                let n = calls.iter().filter(|c| matches!(c, Call::WriteSingleReg { unit: u, addr: 7, value: 0x2A2A } if *u == unit)).count();
+                if n != 1 {
+                    problems.push(("broadcast-not-applied-exactly-once".to_string(), format!("unit {unit} received the broadcast write {n} times (handler calls {calls:?})")));
+                }
+            }
+        }
+        None => problems.push(("MACHINERY:no-observation".to_string(), "the server thread produced nothing".into())),
+    }
+    (run, problems)
+}
+
+/// all schedules of the contended-broadcast scenario, for each unit whose lock the application holds
+pub fn c17_contended_broadcast() -> Stats {
+    on_plain_thread(|| {
+        let mut st = Stats::default();
+        for held in 0..3usize {
+            let name = format!("broadcast-vs-handler-lock-{held}");
+            all_schedules(|prefix| scenario_broadcast_vs_handler_lock(held, prefix), &mut st, &name, 2000);
+        }
+        st
+    })
+}
+
 pub fn replay_c19(v: &serde_json::Value) -> Vec<(String, String)> {
+    if let Some(name) = v["scenario"].as_str() {
+        if let Some(held) = name.strip_prefix("broadcast-vs-handler-lock-") {
+            let held: usize = held.parse().unwrap_or(0);
+            let choices: Vec<usize> = v["choices"].as_array().unwrap().iter().map(|x| x.as_u64().unwrap() as usize).collect();
+            let name = name.to_string();
+            return on_plain_thread(move || {
+                let (run, mut problems) = scenario_broadcast_vs_handler_lock(held, &choices);
+                if run.deadlock {
+                    problems.push(("deadlock".into(), format!("{:?}", run.trace)));
+                }
+                problems.into_iter().map(|(s, d)| (format!("{s}:{name}"), d)).collect()
+            });
+        }
+    }
     on_plain_thread(|| {
         if v["kind"] == "c19-db" {
             let ops: Vec<DbOp> = serde_json::from_value(v["ops"].clone()).unwrap();
